@@ -304,4 +304,30 @@ Section Acc.
       let* nh := nh_parse fam p in Ok (Some (fam, nh))
     end.
   Definition a_conventional_next_hop : res (option N) := a_u32 3.
+
+  (* PaMap::from_update_pdu: every attribute except MP_REACH / MP_UNREACH, keyed by type code
+     (BTreeMap: ascending, a later attribute of the same code replaces an earlier one) *)
+  Fixpoint pamap_insert (m : list (N * pattr)) (c : N) (a : pattr) : list (N * pattr) :=
+    match m with
+    | [] => [(c, a)]
+    | (c', a') :: tl =>
+      if c =? c' then (c, a) :: tl
+      else if c <? c' then (c, a) :: m
+      else (c', a') :: pamap_insert tl c a
+    end.
+  Fixpoint pamap_fill (l : list (res wattr)) (m : list (N * pattr)) : res (list (N * pattr)) :=
+    match l with
+    | [] => Ok m
+    | Ok w :: tl =>
+      if (wattr_code w =? 14) || (wattr_code w =? 15) then pamap_fill tl m
+      else let* o := to_owned w in pamap_fill tl (pamap_insert m (wattr_code w) o)
+    | Err :: _ => Err
+    | Panic :: _ => Panic
+    end.
+  Definition a_pamap : res (list (N * pattr)) := pamap_fill a_path_attributes [].
+  Fixpoint pamap_bytes_len (m : list (N * pattr)) : res nat :=
+    match m with
+    | [] => Ok 0%nat
+    | (_, a) :: tl => let* n := compose_len a in let* r := pamap_bytes_len tl in Ok (n + r)%nat
+    end.
 End Acc.
